@@ -186,3 +186,11 @@ CORPUS += [
     V("C04", "atsp-closing-edge-rolled-over-the-batch", _ATE, "torch.roll(actions, -1, dims=1)", "torch.roll(actions, -1)", "C04.a"),
     V("C04", "mcp-quota-flattened-in-reset", G_ + "mcp/env.py", '"n_sets_to_choose": td["n_sets_to_choose"],  # (batch_size, 1)', '"n_sets_to_choose": td["n_sets_to_choose"].reshape(*batch_size),  # (batch_size,)', "C04.a"),
 ]
+
+_ANT = "rl4co/models/zoo/deepaco/antsystem.py"
+CORPUS += [
+    V("C12", "deepaco-start-nodes-flattened-instance-major", _ANT, "            .transpose(0, 1)\n            .reshape(-1)", "            .reshape(-1)", "C12.e"),
+    V("C12", "eq-deepaco-start-nodes-t-view", _ANT, "            .transpose(0, 1)\n            .reshape(-1)", "            .t()\n            .reshape(-1)", None),
+    V("C12", "select-best-only-for-multistart", _DEC, "        if self.num_starts > 0 and self.select_best:", "        if self.multistart and self.select_best:", "C12.f"),
+    V("C12", "eq-select-best-guard-commuted", _DEC, "        if self.num_starts > 0 and self.select_best:", "        if self.select_best and self.num_starts > 0:", None),
+]
